@@ -653,6 +653,7 @@ def run(chk, repo, tier):
         break
     run_k9(chk, repo)
     run_k10(chk, repo)
+    run_k11(chk, repo)
 
 
 def _record_tests(fn):
@@ -793,3 +794,42 @@ def run_k10(chk, repo):
                       'entry is returned as complete', line=db.methods['snapshot'].node.lineno,
                       witness='a store interrupted after the model file and before results.json, then retrieve_model_entry of '
                               'that key: the entry comes back without results instead of raising PendingTransactionError')
+
+
+def run_k11(chk, repo):
+    """write-then-publish: a file written under a temporary name is renamed over the final name only after it has been closed
+    (flushed); the rename must not sit inside the `with open(tmp, 'w')` block"""
+    K11 = chk.rule('K11', 'workflows: os.replace / rename of a temporary file comes after the with-block that writes it', floor=1)
+    n = 0
+    for f in repo.all_funcs():
+        if not f.module.name.startswith('pharmpy.workflows'):
+            continue
+        for W in [x for x in ast.walk(f.node) if isinstance(x, ast.With)]:
+            opened = []
+            for it in W.items:
+                c = it.context_expr
+                if isinstance(c, ast.Call) and dotted(c.func) in ('open', 'io.open') and c.args and len(c.args) >= 2 \
+                        and isinstance(c.args[1], ast.Constant) and any(ch in str(c.args[1].value) for ch in 'wax'):
+                    opened.append(unparse(c.args[0]))
+                elif isinstance(c, ast.Call) and isinstance(c.func, ast.Attribute) and c.func.attr == 'open' and c.args \
+                        and isinstance(c.args[0], ast.Constant) and any(ch in str(c.args[0].value) for ch in 'wax'):
+                    opened.append(unparse(c.func.value))
+            if not opened:
+                continue
+            for c in [x for s_ in W.body for x in ast.walk(s_) if isinstance(x, ast.Call)]:
+                fn = dotted(c.func) or ''
+                moved = unparse(c.args[0]) if fn in ('os.replace', 'os.rename', 'shutil.move') and c.args else (
+                    unparse(c.func.value) if isinstance(c.func, ast.Attribute) and c.func.attr in ('replace', 'rename')
+                    and 'path' in unparse(c.func.value).lower() else None)
+                if moved in opened:
+                    chk.violation(K11, f.module.rel, f.qualname, unparse(c)[:80],
+                                  'the temporary file is published while it is still open: its buffered content reaches the '
+                                  'final name only when the block closes', line=c.lineno,
+                                  witness='a process that dies between the rename and the close leaves an empty (or truncated) '
+                                          'file under the final name: earlier entries are lost')
+        for c in calls_in(f.node):
+            if (dotted(c.func) or '') in ('os.replace', 'os.rename'):
+                n += 1
+                chk.instance(K11, f'{f.qualname}: {unparse(c)[:60]} examined')
+    if n == 0:
+        raise AnalysisError('K11: no os.replace / os.rename found in pharmpy.workflows')
